@@ -7,13 +7,13 @@ HERE = os.path.dirname(os.path.abspath(__file__))
 VERIF = os.path.dirname(HERE)
 
 TEXT = {
-    "C01": ("Lean theorems, all by induction with no bound, for EVERY table, string and flag combination: graph level C01_valence, C01_counts_consistent, C01_simple_graph, C01_forest (derivation + ring pass); writer level C01w_writer_eq_spec (the explicit-stack writer = a structural pre-order rendering), C01w_balanced, C01w_labels_paired, C01w_every_atom_once, C01w_decoder_atom_order, C01w_labels_legal_partial (<= 99 ring bonds; the overflow is C01w_label_overflow, finding F1). Tie: regenerated tables/state functions (GenEq) and differential correspondence of the output SMILES (all strings <= 3/4 symbols over a cover alphabet, stay-alive and uniform streams, several tables). The external-sanitizer clause is validated with RDKit only.",
+    "C01": ("Lean theorems, all by induction with no bound, for EVERY table, string and flag combination: graph level C01_valence, C01_counts_consistent, C01_simple_graph, C01_forest (derivation + ring pass); writer level C01w_writer_eq_spec (the explicit-stack writer = a structural pre-order rendering), C01w_balanced, C01w_labels_paired, C01w_every_atom_once, C01w_decoder_atom_order, C01w_labels_legal_partial (<= 99 ring bonds; the overflow is C01w_label_overflow, finding F1); C01r_reader_recovers: the library's own parser reads the written SMILES back as exactly the decoder's graph (<= 99 rings, no ring across '.'). Tie: regenerated tables/state functions (GenEq) and differential correspondence of the output SMILES (all strings <= 3/4 symbols over a cover alphabet, stay-alive and uniform streams, several tables). The external-sanitizer clause is validated with RDKit only.",
             "§7 C01"),
     "C02": ("Lean theorem C02_graph_eq_general: for every table, string and flag combination the decoder model's graph equals the graph of Spec/Derivation.lean - an independent, executable rendering of derivation.rst (count-down budget, declarative symbol classes, bond-list molecule, second-pass ring formation) - and the error classes agree (C02_reject_iff), for every result other than RecursionError (finding F2). 45 documented examples are kernel-checked against the spec. Tie: the real decoder is compared on every string <= 3/4 symbols over 28 symbols under 4 tables, plus sampled streams, BOTH with the model and with the independent spec through the driver.",
             "§7 C02"),
     "C03": ("Lean theorems C03_decode_encode / C03_roundtrip_graph and, at the level of strings, C03p_roundtrip_strings (every SMILES the strict encoder accepts; the parser is PROVED to establish the graph hypotheses: C03p_parser_pwf, C03p_parser_forest, C03p_kekulized_ready; remaining hypotheses: spans < 16^3, nesting depth < recursion budget, length <= 10^4300): for every parsed, kekulized graph that obeys the table, encoding then decoding yields the same atoms in the same order and the same bonded pairs with the same orders (SameMolecule), with each atom's neighbour order = ring bonds in formation order then chain bonds (C03_neighbour_order) - a theorem about graphs, i.e. about every spelling at once; staged versions C03_chain, C03_tree. Tie: correspondence of parser, kekulization (recorded tape), encoder, decoder on datasets, re-spellings (incl. ring digits behind branches), random trees, long spans; the independent reader judges the real round trip.",
             "§7 C03"),
-    "C04": ("Lean theorems C04_parity_spec / C04_parity_eq (the encoder's chirality flip is exactly the parity of the permutation between the written neighbour order and the decoder's order, for every graph), C04_inversions_parity (inversion count = transposition parity), C04_ring_marks / C04_chain_marks (every '/' '\\' mark is carried by the emitted symbol and read back on the right end; decide over the regenerated ring table). The decoder-side half of the end-to-end statement is carried by correspondence and by the independent handedness oracle on the real round trip.",
+    "C04": ("Lean theorems C04_parity_spec / C04_parity_eq (the encoder's chirality flip is exactly the parity of the permutation between the written neighbour order and the decoder's order, for every graph), C04_inversions_parity (inversion count = transposition parity), C04_ring_marks / C04_chain_marks (every '/' '\\' mark is carried by the emitted symbol and read back on the right end; decide over the regenerated ring table). C04_end_to_end (string level): after encoder and decoder every atom's written neighbour order is the decoder order of its input row and its tag is flipped exactly when that permutation is odd.",
             "§7 C04"),
     "C05": ("Lean theorems: C05_greedy_valid/_total, C05_flip_valid, C05_bfs_path_alternating, C05_augment_sound_partial (sound whenever every augmenting path found is simple), C05_bipartite_sound (sound on bipartite graphs, every tape), C05_kekulize_sound (exact result of kekulize given a perfect matching: sigma skeleton unchanged, one double bond per kept atom), C05_prune_standard_kinds (28 atom kinds, decide); unconditional soundness is FALSE (C05_no_blossom_witness / C05_soundness_false, finding F9). Tie: find_perfect_matching vs the model on EVERY subcubic graph <= 6/7 vertices + random graphs to 30 vertices with the recorded tape, brute force; aromatic systems in many atom orders judged per spelling by the independent reader. Completeness and order independence are bounded search by design.",
             "§7 C05"),
@@ -25,7 +25,7 @@ TEXT = {
             "§7 C08"),
     "C09": ("Lean theorems C09_parse_total (the parser returns a graph or SMILESParserError: no IndexError / AttributeError / AssertionError, fuel suffices), C09_kekulize_total, C09_matching_total (also downstream of a non-matching nothing but the documented outcomes is reachable), C09_emit_total, C09_total_partial: for EVERY str, table, flags and legal choice tape the encoder model returns, raises EncoderError, or raises RecursionError (deep nesting, finding F2: C09_recursionError_witness); C09_no_recursion_error_if_shallow. Tie: exception class and result on malformed / arbitrary str x 4 flag combinations vs the model, and the parser's graph itself (atoms, adjacency with placeholders, counts, delocalisation subgraph) vs the model's graph.",
             "§7 C09"),
-    "C10": ("Lean theorems C10_atom_symbol_accepted (every atom the SMILES reader produces is spelled as a symbol the SELFIES reader maps back to the same atom and bond info, for all isotopes/charges/H counts/elements/prefixes, tokens up to 10^4300 characters), C10_standardised + the spelling families (sign runs, H/H1, leading zeros, atom class), C10_branch_ring_symbols_accepted (n < 16^3) and the limit C10_branch_ring_limit, C10_atom_symbol_dispatch; with C03_roundtrip the emitted string decodes. Tie: structured families of bracket atoms through both readers vs the model; chain encoder -> decoder -> encoder on the real code.",
+    "C10": ("Lean theorems C10_atom_symbol_accepted (every atom the SMILES reader produces is spelled as a symbol the SELFIES reader maps back to the same atom and bond info, for all isotopes/charges/H counts/elements/prefixes, tokens up to 10^4300 characters), C10_standardised + the spelling families (sign runs, H/H1, leading zeros, atom class), C10_branch_ring_symbols_accepted (n < 16^3) and the limit C10_branch_ring_limit, C10_atom_symbol_dispatch; C10_reencode_stable: encoder(decoder(encoder(s))) = encoder(s) for every accepted SMILES (spans < 16^3, depth, length, <= 99 rings). Tie: structured families of bracket atoms through both readers vs the model; chain encoder -> decoder -> encoder on the real code.",
             "§7 C10"),
     "C11": ("Lean theorems C11_cache_coherent / C11_capacity_pure: after ANY history of API calls, rejected updates, cache fills, LRU evictions and caller mutations, the capacity cache agrees with the current table, so what the translators read is a function of the current table only (induction over all operation lists). Tied to the code by random histories on fresh imports compared with the model and with fresh interpreters (several hash seeds).",
             "§7 C11"),
